@@ -81,6 +81,14 @@ func main() {
 			ev.EngineError("part %s evidence: %v", part, err)
 		}
 		num := func(k string) int64 { f, _ := e.Coverage[k].(float64); return int64(f) }
+		// a part whose binary was built without the tracker re-runs its scenarios for nothing: refuse to count it
+		mm, _ := e.Coverage["max_metrics"].(map[string]any)
+		if acq, _ := mm["pool_acquired"].(float64); acq == 0 {
+			ev.EngineError("part %s ran without the lifecycle tracker (no tracked acquisition in any execution): its worlds must import verif/worlds/track", part)
+		}
+		if chk, _ := mm["pool_liveness_checks"].(float64); chk == 0 {
+			ev.EngineError("part %s: the tracker saw no method call on a pooled message", part)
+		}
 		states += num("states")
 		transitions += num("transitions")
 		execs += num("traces_validated_against_impl")
